@@ -29,11 +29,11 @@ HB_UNWIND = ','.join(f'{f}.{k}:14' for f in ('vp_hb_init', 'vp_hb_fork', 'vp_hb_
 
 class Query:
     def __init__(s, name, cpp, q, defines=(), unwind=3, unwindset=None, timeout=600, solvers=('kissat', 'minisat'), checks=None,
-                 witness=True, expect_witness=True, note='', mem_gb=24, extra_flags=(), must_cover=0, tv=True, cflags=(), object_bits=10):
+                 witness=True, expect_witness=True, note='', mem_gb=24, extra_flags=(), must_cover=0, tv=True, cflags=(), object_bits=10, tv_order=None):
         s.name, s.cpp, s.q, s.defines = name, cpp, q, tuple(defines)
         s.unwind, s.unwindset, s.timeout, s.solvers = unwind, unwindset, timeout, tuple(solvers)
         s.checks, s.witness, s.note, s.mem_gb = checks, witness, note, mem_gb
-        s.extra_flags = tuple(extra_flags); s.must_cover = must_cover; s.tv = tv; s.cflags = tuple(cflags); s.object_bits = object_bits
+        s.extra_flags = tuple(extra_flags); s.must_cover = must_cover; s.tv = tv; s.cflags = tuple(cflags); s.object_bits = object_bits; s.tv_order = tv_order
 
 
 def sh(cmd, **kw):
@@ -178,8 +178,15 @@ def translation_validate(Q, cfile, work, k, seed):
     """E7 (DESIGN.md): run K concrete input vectors through (a) the native build of the generated C under the greedy schedule and
     (b) the harness compiled by g++ against the real /repo headers, thread entries run to completion in the same order; the
     observation logs (assertion ids, ghost state, coverage bits, vp_log records) must be identical."""
-    import random
-    rnd = random.Random(seed * 7919 + hash(Q.name) % 1000)
+    import random, copy
+    rnd = random.Random(seed * 7919 + sum(map(ord, Q.name)) % 1000)
+    if Q.tv_order is not None:
+        # a round order under which no thread has to wait (e.g. arrivers before waiters), used for this validation only
+        q2 = copy.deepcopy(Q.q); q2['order'] = list(Q.tv_order)
+        ll = compile_ll(work, Q.cpp, Q.defines, Q.cflags)
+        text, _ = ir2c.translate(open(ll).read(), q2)
+        cfile = cfile[:-2] + '.tv.c'; open(cfile, 'w').write(text)
+        Q = copy.copy(Q); Q.q = q2
     gen = cfile[:-2] + '.tvgen'; real = cfile[:-2] + '.tvreal'
     r = sh(['gcc', '-DVP_NATIVE', '-DVP_GREEDY', '-O0', '-w', '-I', os.path.join(ROOT, 'engine')] + list(Q.extra_flags) + [cfile, os.path.join(ROOT, 'engine', 'vp_native.c'), '-o', gen])
     if r.returncode != 0: return dict(error='generated C does not build natively: ' + r.stdout[-300:])
@@ -197,7 +204,7 @@ def translation_validate(Q, cfile, work, k, seed):
         return sorted(keep)
     res = dict(vectors=0, validated=0, skipped_blocking=0, skipped_assume=0, mismatches=[])
     for i in range(k):
-        vec = [rnd.choice([0, 1, 2, 3, 0, 1, rnd.randint(0, 6)]) for _ in range(24)]
+        vec = [rnd.choice([0, 1, 2, 0, 1, 2, 3, rnd.randint(0, 4)]) for _ in range(24)]
         env = dict(os.environ, VP_NONDET=','.join(map(str, vec)), VP_TV='1')
         res['vectors'] += 1
         try:
